@@ -16,34 +16,18 @@ def _kind(t, i):
     return t[i][0] if i < len(t) else "missing"
 
 
-def _run(g):
-    """Run generator g as a plan inside the reference; returns the response to its last message."""
-    resp = None
-    exc = None
-    while True:
-        try:
-            m = g.throw(exc) if exc is not None else g.send(resp)
-        except StopIteration:
-            return resp
-        exc = None
-        try:
-            resp = yield m
-        except GeneratorExit:
-            g.close()
-            raise
-        except Exception as e:  # noqa  thrown by the RunEngine at an inserted message: goes into the inserted plan first
-            exc = e
-
-
-def ref_insert(host, proc):
+def ref_plan(plan, proc, seen, keep, top):
+    """The documented insertion, recursively: every message not offered before is offered to the processor; a head
+    (ending, or not, with the original message) runs as a plan in its place and the response to the head's last
+    message answers the original yield; a tail runs afterwards with its responses swallowed; inserted messages are
+    processed the same way.  An exception raised while a message is in flight goes to the innermost plan first."""
     from bluesky.utils import single_gen
 
-    seen = set()
-    keep = []
+    resp = None
     try:
-        m = host.send(None)
+        m = plan.send(None)
     except StopIteration as e:
-        return e.value
+        return e.value if top else None
     while True:
         try:
             if id(m) in seen:
@@ -57,27 +41,31 @@ def ref_insert(host, proc):
             if head is None:
                 resp = yield m
             else:
-                resp = yield from _run(head)
+                resp = yield from ref_plan(head, proc, seen, keep, False)
                 if tail is not None:
-                    yield from _run(tail)
+                    yield from ref_plan(tail, proc, seen, keep, False)
         except GeneratorExit:
-            host.close()
+            plan.close()
             raise
         except Exception as e:  # noqa
             try:
-                m = host.throw(e)
+                m = plan.throw(e)
             except StopIteration as s:
-                return s.value
+                return s.value if top else resp
             continue
         try:
-            m = host.send(resp)
+            m = plan.send(resp)
         except StopIteration as s:
-            return s.value
+            return s.value if top else resp
+
+
+def ref_insert(host, proc):
+    return (yield from ref_plan(host, proc, set(), [], True))
 
 
 def make(P):
     import bluesky.preprocessors as bpp
-    from bluesky.utils import single_gen
+    from bluesky.utils import Msg, single_gen
 
     L, Ls, S = P["L"], P["Ls"], P["S"]
     HOST_OPS = genlab.SIMPLE_OPS + (genlab.TRYEXC, genlab.TRYFIN)
@@ -89,8 +77,9 @@ def make(P):
         code, hcode, tcode = [c1, c2, c3, c4][:L], [h1, h2][:Ls], [t1, t2][:Ls]
         script, vals = [a1, a2, a3, a4, a5, a6, a7][:S], [v1, v2, v3, v4, v5, v6, v7]
         form = fork_int(form, 0, 4)  # 0 (head+orig, None) 1 (head, None) 2 (head+orig, tail) 3 (head, tail) 4 (None, tail)
-        k = fork_int(k, 0, 1)
-        only_shard(form * 2 + k + 10 * fork_int(c1, 0, len(HOST_OPS) - 1), P)
+        kk = fork_int(k, 0, 3 if P.get("nested") else 1)
+        k, nested = kk % 2, kk >= 2  # nested: the processor also attaches a one-message tail to the first message of an inserted head / tail
+        only_shard(form * 2 + k + 10 * fork_int(c1, 0, len(HOST_OPS) - 1) + (70 if nested else 0), P)
 
         def mkproc(log, offered):
             n = {"host": 0}
@@ -99,6 +88,15 @@ def make(P):
                 if id(msg) in offered:
                     log.append(("offered-twice", genlab.msg_key(msg)))
                 offered[id(msg)] = msg
+                if nested and msg.obj in ("h", "t") and not n.get("nested-done"):
+                    n["nested-done"] = True
+                    log.append(("nested-insert-at", genlab.msg_key(msg)))
+
+                    def ntail():
+                        r = yield Msg("null", "n", 0)
+                        log.append(("resp", "n", r))
+
+                    return None, ntail()
                 if msg.obj != "p":
                     return None, None
                 i = n["host"]
@@ -136,6 +134,8 @@ def make(P):
             tags.append(f"plan_mutator:plan-side-log-differs:{_kind(log0, j)}-vs-{_kind(log1, j)}")
         if any(e[0] == "insert-at" for e in log1):
             goal("inserted")
+        if any(e[0] == "nested-insert-at" for e in log1):
+            goal("nested-insertion")
         if any(e[0] == "resp" and e[1] == "t" for e in log1):
             goal("tail-got-response")
         if any(e[0] == "translate" for e in log1):
@@ -154,11 +154,11 @@ def _fns():
 
 
 register(Harness("c21_insert", "C21", make,
-                 {"quick": dict(L=2, Ls=2, S=3, nact=4, shards=32, budget_s=240, per_path_s=20), "thorough": dict(L=3, Ls=2, S=5, nact=5, shards=60, budget_s=3000, per_path_s=30)},
-                 goals=["inserted", "tail-got-response", "insert-exception-caught-by-host", "inserted-plan-translated-exception"], functions=_fns,
+                 {"quick": dict(L=2, Ls=2, S=3, nact=4, nested=True, shards=32, budget_s=240, per_path_s=20), "thorough": dict(L=3, Ls=2, S=5, nact=5, nested=True, shards=60, budget_s=3000, per_path_s=30)},
+                 goals=["inserted", "tail-got-response", "insert-exception-caught-by-host", "inserted-plan-translated-exception", "nested-insertion"], functions=_fns,
                  symbolic="host program: L opcodes in {yield, raise, return, end, try/except, try/finally}; head and tail programs: Ls opcodes in "
                  "{yield, raise, return, end, try-block-that-translates-a-thrown-exception}; insertion at host message k in {0,1}; form in {(head+orig,None),(head,None),(head+orig,tail),(head,tail),"
-                 "(None,tail)}; driver script of S actions {send symbolic int, throw Boom, throw RequestStop, close, send None}",
-                 out_of_bound="head/tail plans that swallow exceptions thrown into them; processors that insert into inserted messages (recursion); "
+                 "(None,tail)}; optionally a nested one-message tail attached by the processor to the first message of the inserted head/tail; driver script of S actions {send symbolic int, throw Boom, throw RequestStop, close, send None}",
+                 out_of_bound="head/tail plans that swallow exceptions thrown into them; nesting deeper than one one-message tail attached to the first inserted message; "
                  "'not re-processed' is checked as: a message object once offered to the processor is never offered again",
                  require_exhaustive=True))
